@@ -29,7 +29,7 @@ From Soy Require Import Model.Outcome Model.MsgId Proofs.MsgIdProofs.
 From Soy Require Import Model.Lexer Model.Parser Proofs.LexPrintMain Proofs.LexParseText Proofs.LexPrintCmd Proofs.PrintCmdText.
 From Soy Require Import Proofs.ParserProofs Proofs.CmdParserFuel Proofs.PrintCmdFile.
 From Soy Require Import Spec.LexKeyword Proofs.LexPrint Proofs.LexKeywordProofs.
-From Soy Require Import Model.RawText Model.Parser Model.AstPrintCmd Spec.CmdSyntax Proofs.CmdRoundtripBase Proofs.CmdRoundtripRules Proofs.CmdRoundtrip.
+From Soy Require Import Model.RawText Model.Parser Model.AstPrintCmd Spec.CmdSyntax Proofs.CmdRoundtripBase Proofs.CmdRoundtripRules Proofs.CmdRoundtrip Proofs.ExprParserMono Proofs.CmdParserStripDefs Proofs.CmdParserStripMain Proofs.CmdRoundtripStrip Proofs.LexBodyC17Body Proofs.LexBodyC17Top Proofs.CmdRoundtripBytes.
 Open Scope N_scope.
 
 (* Parsing the items of the printed expression gives back the expression itself (positions
@@ -347,37 +347,45 @@ Proof. vm_compute. reflexivity. Qed.
    commands; this is the same statement for the command forms whose String() is source syntax
    the parser accepts again: raw text, print, {log}, {debugger}, {let} in both forms,
    {if}/{elseif}/{else}, {for}/{ifempty}, {switch}/{case}/{default}, {call} with data="all" /
-   data="e" and {param k: e/} / {param k}..{/param}, {css}, {msg} without {plural}, nested to any depth).
+   data="e" and {param k: e/} / {param k}..{/param}, {css}, {msg}, {plural} inside {msg}, nested to any depth).
    Model/Parser.v's itemList (parse.go itemList / textOrTag / beginTag and the command parsers,
    same next/backup/peek order as the Go code), started in ANY parser state (inside or outside a
    {msg}: flag m) that delivers the items of a well-formed body followed by "{" and an item u
    that ends the list, returns that body itself for every fuel above some bound, has consumed
    "{" and u, and leaves the items that follow; the state is unchanged but for the token plumbing
    and the log of nested scanners.
-   External functions enter with their contracts: efuel (budget of the nested expression parse of
-   data="e" / {css e, x}: enough whenever some budget is), unq (strconv.Unquote inverts
+   External functions enter with their contracts: unq (strconv.Unquote inverts
    strconv.Quote on the printer model's domain); lexq (the nested scanner) enters through
    wf_body's clause quoted_ok: it reads the printed text of the expression as the expression's items.
+   The budget of the nested expression parse of data="e" / {css e, x} is the one the model's entry
+   points use (Model/Parser.v expr_fuel = number of items + 8); that it is enough is proved
+   (Proofs/ExprParserMono.v expr_fuel_ok: termination below the measure + monotonicity in the fuel).
    {msg meaning= desc=} with raw text, html tags and command placeholders is covered ({msg} reads its
-   body with tree.inmsg set and placeholderizes it; the theorem shows the children come back).
-   Not covered: {plural} inside {msg}, templates, soydoc, namespace -- see notes/astprint-reparse.md. ---- *)
-Theorem C17_parse_body_roundtrip_partial :
-  forall (ns : bstr) (al : list (bstr * bstr)) (inlen : N) (lexq : bstr -> list tok) (unq : bstr -> option bstr) (efuel : list tok -> nat),
-  (forall ts e rest, Parses 0 ts e rest -> exists p', parse_expr (efuel ts) 0 (pst_init ts) = POk e p') ->
+   body with tree.inmsg set and placeholderizes it; the theorem shows the children come back), and
+   {plural} inside it in both forms the parser builds: as the only child of the {msg} (case bodies
+   placeholderized, recursively through nested {plural}s) and as a command of a body nested in the
+   {msg} ({msg}{log}{plural}..: case bodies stay bodies).
+   wf_body excludes only: trees the parser cannot build (see Spec/CmdSyntax.v), raw text that is not
+   in the form line joining leaves, and the file-level nodes (namespace, template, header parameter,
+   soydoc, alias), which beginTag would accept in a body but whose String() is not source syntax
+   (notes/astprint-reparse.md).  {literal}, {sp} {nil} {lb} .., {foreach}, {print e}, {let kind=}
+   read to trees whose String() is another covered form. ---- *)
+Theorem C17_parse_body_roundtrip :
+  forall (ns : bstr) (al : list (bstr * bstr)) (inlen : N) (lexq : bstr -> list tok) (unq : bstr -> option bstr),
   (forall s q, go_quote s = Some q -> unq q = Some s) ->
   forall m x until u rest,
   wf_body lexq (nameok ns al) m x -> good_until until = true -> one_of (t_typ u) until = true ->
   forall s, stream (c_p s) = body_toks x ++ T_ldelim :: u :: rest -> inv (c_p s) ->
             c_inmsg s = m -> c_ns s = ns -> c_al s = al ->
   exists p' sc', stream p' = rest /\ inv p' /\
-    exists f0, forall f, (f0 <= f)%nat -> item_list inlen lexq unq parse_expr efuel f until s = COk x (set_ps s p' sc').
+    exists f0, forall f, (f0 <= f)%nat -> item_list inlen lexq unq parse_expr expr_fuel f until s = COk x (set_ps s p' sc').
 Proof.
-  intros ns al inlen lexq unq efuel Hef Hunq m x until u rest Hwf Hg Hu s Hs Hi Hm Hns Hal.
-  destruct (parse_body_roundtrip ns al inlen lexq unq efuel Hef Hunq m x until u rest Hwf Hg Hu s (c_p s) (c_scans s) Hs Hi (conj Hm (conj Hns Hal)))
+  intros ns al inlen lexq unq Hunq m x until u rest Hwf Hg Hu s Hs Hi Hm Hns Hal.
+  destruct (parse_body_roundtrip ns al inlen lexq unq expr_fuel expr_fuel_ok Hunq m x until u rest Hwf Hg Hu s (c_p s) (c_scans s) Hs Hi (conj Hm (conj Hns Hal)))
     as (p' & sc' & H1 & H2 & _ & _ & f0 & HF).
   exists p', sc'. split; [exact H1|]. split; [exact H2|]. exists f0. intros f Hf. rewrite <- (HF f f Hf Hf), set_ps_eta. reflexivity.
 Qed.
-Print Assumptions C17_parse_body_roundtrip_partial.
+Print Assumptions C17_parse_body_roundtrip.
 
 (* every list of closing items the parser uses for a body is "good": no item that starts a
    command or text of a body can be mistaken for the end of the list *)
@@ -419,6 +427,8 @@ Proof.
   unfold key_ok, float_ok, quoted_ok, call_name_ok, nameok, plain, no_byte, run_ok.
   repeat match goal with
          | H : _ :: _ = [] |- _ => discriminate H
+         | H : false = true |- _ => discriminate H
+         | H : existsb _ _ = true |- _ => vm_compute in H; try discriminate H
          | |- _ /\ _ => split
          | |- True => exact I
          | |- exists _, _ => eexists
@@ -438,3 +448,142 @@ Example C17_body_roundtrip_nonvacuous :
   exists s, item_list 0 ex_lexq ex_unq parse_expr (fun _ => 20%nat) 60 u_template
               (cst_init (body_toks ex_body ++ [T_ldelim; kw pit_TemplateEnd 0; T_rdelim])) = COk ex_body s.
 Proof. eexists. vm_compute. reflexivity. Qed.
+
+(* {plural}: the only child of its {msg}, with a nested {plural} in a case body, and a {plural} that is a
+   command of a {log} inside a {msg} (its case bodies are not placeholderized) *)
+Definition ex_plural_body : node :=
+  NList 0 [ NMsg 1 0 [] (b "n items")
+              [ NMsgPlural 2 [] (NDataRef 3 (b "n") [])
+                  [ NMsgPluralCase 4 1 [ NRawText 5 (b "one "); NMsgPlaceholder 9 [] (NMsgHtmlTag 9 (b "<b>"));
+                                         NMsgPlaceholder 12 [] (NPrint 12 (NDataRef 12 (b "x") []) []) ];
+                    NMsgPluralCase 20 2 [ NMsgPlural 21 [] (NDataRef 22 (b "m") []) [] [ NRawText 23 (b "few") ] ] ]
+                  [ NRawText 30 (b "many "); NMsgPlaceholder 35 [] (NPrint 35 (NDataRef 35 (b "n") []) []) ] ];
+            NMsg 40 0 [] (b "d")
+              [ NMsgPlaceholder 41 [] (NLog 41 (NList 0 [ NMsgPlural 42 [] (NDataRef 43 (b "k") [])
+                                                           [ NMsgPluralCase 44 0 [ NRawText 45 (b "zero") ] ]
+                                                           [ NPrint 46 (NDataRef 46 (b "k") []) [] ] ])) ] ].
+
+Example C17_plural_wf_nonvacuous : wf_body ex_lexq (nameok (b "ns") []) false ex_plural_body.
+Proof.
+  cbn -[msg_raw_text rawtext_run go_quote print_node trim_space run_text run_pos split_dots in_int64].
+  unfold run_ok.
+  repeat match goal with
+         | H : _ :: _ = [] |- _ => discriminate H
+         | H : false = true |- _ => discriminate H
+         | H : existsb _ _ = true |- _ => vm_compute in H; try discriminate H
+         | |- _ /\ _ => split
+         | |- True => exact I
+         | |- forall _, _ => intro
+         | |- wf_expr _ => cbn
+         | |- (_ <= _)%Z => vm_compute; discriminate
+         | |- _ = _ => vm_compute; reflexivity
+         | |- _ <> _ => vm_compute; discriminate
+         end.
+Qed.
+
+Example C17_plural_prints_nonvacuous :
+  print_tree ex_plural_body = Some (b "{msg desc=""n items""}{plural $n}{case 1}one <b>{$x}{case 2}{plural $m}{default}few{/plural}{default}many {$n}{/plural}{/msg}{msg desc=""d""}{log}{plural $k}{case 0}zero{default}{$k}{/plural}{/log}{/msg}").
+Proof. vm_compute. reflexivity. Qed.
+
+Example C17_plural_roundtrip_nonvacuous :
+  exists s, item_list 0 ex_lexq ex_unq parse_expr expr_fuel 60 u_template
+              (cst_init (body_toks ex_plural_body ++ [T_ldelim; kw pit_TemplateEnd 0; T_rdelim])) = COk ex_plural_body s.
+Proof. eexists. vm_compute. reflexivity. Qed.
+
+(* ---- the body round trip for the items a scanner really sends.  [body_toks x] carries the node
+   positions and 0 at the items that create no node; the scanner puts the offset of its end on every
+   item.  The command-level parser model (all of Model/Parser.v: itemList, textOrTag, beginTag and every
+   command parser, the nested scanners of data="e" / {css e, x}, placeholderize) does not look at item
+   positions on a successful run (C17_cmd_parser_ignores_positions: two runs from states that agree up
+   to positions both succeed, with trees equal up to positions and final states that agree up to
+   positions; error runs are excluded because errorAt compares the position with the input length).
+   Hence ANY item list with the types and texts of body_toks x ++ "{" u rest is read, from the initial
+   state and under the entry points' budget, as x up to positions. ---- *)
+Theorem C17_cmd_parser_ignores_positions :
+  forall (inlen inlen' : N) (lexq : bstr -> list tok) (unq : bstr -> option bstr) f until its its' x s,
+  map strip_tok its = map strip_tok its' ->
+  item_list inlen lexq unq parse_expr expr_fuel f until (cst_init its) = COk x s ->
+  exists x' s', item_list inlen' lexq unq parse_expr expr_fuel f until (cst_init its') = COk x' s' /\ cps_strip x = cps_strip x'.
+Proof. exact cps_body_expr_fuel. Qed.
+Print Assumptions C17_cmd_parser_ignores_positions.
+
+Theorem C17_parse_body_roundtrip_any_positions :
+  forall (inlen inlen' : N) (lexq : bstr -> list tok) (unq : bstr -> option bstr),
+  (forall s q, go_quote s = Some q -> unq q = Some s) ->
+  forall x until u rest its,
+  wf_body lexq (nameok [] []) false x -> good_until until = true -> one_of (t_typ u) until = true ->
+  map strip_tok its = map strip_tok (body_toks x ++ T_ldelim :: u :: rest) ->
+  exists f0, forall f, (f0 <= f)%nat ->
+    exists x' s', item_list inlen' lexq unq parse_expr expr_fuel f until (cst_init its) = COk x' s' /\ cps_strip x' = cps_strip x.
+Proof. exact body_roundtrip_any_positions. Qed.
+Print Assumptions C17_parse_body_roundtrip_any_positions.
+
+(* non-vacuity: the items of the {plural} example with every position replaced by 7 *)
+Example C17_any_positions_nonvacuous :
+  match item_list 0 ex_lexq ex_unq parse_expr expr_fuel 60 u_template
+          (cst_init (map (fun t => tk (t_typ t) 7 (t_val t)) (body_toks ex_plural_body ++ [T_ldelim; kw pit_TemplateEnd 0; T_rdelim]))) with
+  | COk x' _ => cps_strip x' = cps_strip ex_plural_body /\ x' <> ex_plural_body
+  | _ => False
+  end.
+Proof. vm_compute. split; [reflexivity | discriminate]. Qed.
+
+(* ---- template bodies at TEXT level.  C17_lex_body_partial: the scanner model in file mode on the string
+   String() writes for a body of the class lb17_okb (Proofs/LexBodyC17Body.v) sends exactly the items of
+   body_toks (types and texts), then EOF: lexText on the text stretches, lexLeftDelim / lexBeginTag with the
+   keyword table for "{if " "{let " "{for " ..., lexInsideTag for the expressions (lex_print), both right
+   delimiters back to lexText, the closing tags "{/if}" .., lexCss, attribute strings.  PARTIAL in the class:
+   raw text without "/" (no comment test), print, {debugger}, {log}, {let} in both forms, {if}/{elseif}/{else},
+   {for}/{ifempty} with a plain variable as the list (lb17_anylast: the expression after "in" is lexed with
+   a term as the previous item), {switch} whose cases all have values (the default case prints as "{case }": W1),
+   {css}, {call} with data="all" / data="e" / content parameters; NOT {param k: e/} and the bare {call x.y/}
+   (lex_print's follow set has no "/"), {msg} / {plural}.
+   C17_template_body_text_roundtrip_partial: for such a body that is also well-formed (wf_body), the string
+   String(body) ++ "{/template}" goes through the scanner model and then through the command-level parser model
+   (from its initial state, for every budget above a bound, with the entry points' expression budget) to the
+   body itself up to node positions: bytes -> items (above) -> any items with these types and texts are read as
+   the body up to positions (C17_parse_body_roundtrip_any_positions). ---- *)
+Theorem C17_lex_body_partial : forall q ns txt, lb17_okb ns -> print_tree (NList q ns) = Some txt ->
+  exists its e, lex_items is_letter_tbl is_digit_tbl (lex_budget txt) false txt = Ok (its ++ [e]) /\ t_typ e = itemEOF /\
+    map tv its = map tv (body_toks (NList q ns)).
+Proof. exact lb17_lex_body_tbl. Qed.
+Print Assumptions C17_lex_body_partial.
+
+Theorem C17_template_body_text_roundtrip_partial :
+  forall (inlen inlen' : N) (lexq : bstr -> list tok) (unq : bstr -> option bstr),
+  (forall s q, go_quote s = Some q -> unq q = Some s) ->
+  forall q ns txt,
+  wf_body lexq (nameok [] []) false (NList q ns) -> lb17_okb ns -> print_tree (NList q ns) = Some txt ->
+  exists its,
+    lex_items is_letter_tbl is_digit_tbl (lex_budget (txt ++ b "{/template}")) false (txt ++ b "{/template}") = Ok its /\
+    exists f0, forall f, (f0 <= f)%nat ->
+      exists x' s', item_list inlen' lexq unq parse_expr expr_fuel f u_template (cst_init its) = COk x' s' /\
+                    cps_strip x' = cps_strip (NList q ns).
+Proof. exact template_body_text_roundtrip. Qed.
+Print Assumptions C17_template_body_text_roundtrip_partial.
+
+(* non-vacuity: a{if $x}b{else}{debugger}{/if}{let $y}c{/let} with positions that satisfy wf_body *)
+Definition ex_bytes_nodes : list node :=
+  [ NRawText 1 [97];
+    NIf 3 [ NIfCond 3 (Some (NDataRef 4 [120] [])) (NList 5 [NRawText 5 [98]]);
+            NIfCond 3 None (NList 0 [NDebugger 6]) ];
+    NLetContent 7 [121] (NList 8 [NRawText 8 [99]]) ].
+Example C17_bytes_example_wf : wf_body ex_lexq (nameok [] []) false (NList 1 ex_bytes_nodes).
+Proof.
+  cbn -[rawtext_run]. repeat split; try (vm_compute; reflexivity); try (vm_compute; discriminate).
+Qed.
+Example C17_bytes_example_ok : lb17_okb ex_bytes_nodes.
+Proof.
+  unfold ex_bytes_nodes.
+  apply lb17_example_text; try lia; try reflexivity.
+  apply lb17_ok_cmd.
+  { apply lb17_ok_if. apply lb17_ok_conds_cond.
+    - exact I.
+    - split; [reflexivity|exact I].
+    - apply lb17_example_text; try lia; try reflexivity. apply lb17_ok_nil.
+    - apply lb17_ok_conds_else. apply lb17_ok_cmd; [apply lb17_ok_debugger|apply lb17_ok_nil]. }
+  apply lb17_ok_cmd; [|apply lb17_ok_nil].
+  apply lb17_ok_letc; [reflexivity|]. apply lb17_example_text; try lia; try reflexivity. apply lb17_ok_nil.
+Qed.
+Example C17_bytes_example_text :
+  print_tree (NList 1 ex_bytes_nodes) = Some (b "a{if $x}b{else}{debugger}{/if}{let $y}c{/let}").
+Proof. vm_compute. reflexivity. Qed.
